@@ -108,6 +108,8 @@ type fnState struct {
 	cells       map[ssa.Value]cellset
 	content     map[cell]strset
 	cellContent map[cell]cellset
+	pc          map[string]strset  // non-fresh region content: "<base>|<loc>" → roots stored there by this activation
+	pcCells     map[string]cellset // ... and fresh cells stored there
 	vtypes      map[string]types.Type
 	ctype       map[cell]map[string]strset // per cell and stored root: static types of the stored values ("" = unknown)
 	byBase      map[ssa.Value][]cell       // all cells ever written, per allocation site
@@ -161,7 +163,7 @@ func ComputeEffects(p *Prog) *Effects {
 	fns := append(append([]*ssa.Function{}, p.LibFns...), p.CLIFns...)
 	for _, fn := range fns {
 		e.Sum[fn] = newSummary()
-		e.st[fn] = &fnState{fn: fn, roots: map[ssa.Value]strset{}, cells: map[ssa.Value]cellset{}, content: map[cell]strset{}, cellContent: map[cell]cellset{}, byBase: map[ssa.Value][]cell{}, ctype: map[cell]map[string]strset{}, vtypes: e.vtypes}
+		e.st[fn] = &fnState{fn: fn, roots: map[ssa.Value]strset{}, cells: map[ssa.Value]cellset{}, content: map[cell]strset{}, cellContent: map[cell]cellset{}, byBase: map[ssa.Value][]cell{}, ctype: map[cell]map[string]strset{}, vtypes: e.vtypes, pc: map[string]strset{}, pcCells: map[string]cellset{}}
 	}
 	for iter := 0; iter < 50; iter++ {
 		changed := false
@@ -325,6 +327,40 @@ func (s *fnState) load(dst ssa.Value, addr ssa.Value) {
 	r, c := s.contentOf(s.cells[addr])
 	s.addRoots(dst, r)
 	s.addCells(dst, c)
+	// what this activation itself stored into the non-fresh region being read
+	if len(s.roots[addr]) > 0 {
+		loc, _ := locOf(addr)
+		if _, isMap := addr.Type().Underlying().(*types.Map); isMap {
+			loc = "map(" + ownerOf(addr) + ")"
+		}
+		for r := range s.roots[addr] {
+			k := rootBase(r) + "|" + loc
+			s.addRoots(dst, s.pc[k])
+			s.addCells(dst, s.pcCells[k])
+		}
+	}
+}
+
+// storeRegion remembers that val was stored into non-fresh memory at (base of r, loc).
+func (s *fnState) storeRegion(addrRoots strset, loc string, valRoots strset, valCells cellset) {
+	if len(valRoots) == 0 && len(valCells) == 0 {
+		return
+	}
+	for r := range addrRoots {
+		k := rootBase(r) + "|" + loc
+		if s.pc[k] == nil {
+			s.pc[k] = strset{}
+			s.pcCells[k] = cellset{}
+		}
+		for v := range valRoots {
+			if s.pc[k].add(storedForm(v)) {
+				s.changed = true
+			}
+		}
+		if s.pcCells[k].addAll(valCells) {
+			s.changed = true
+		}
+	}
 }
 
 func (s *fnState) touch(c cell) {
